@@ -81,6 +81,9 @@ def roles(cx, s):
         if s.op in ('swap', 'compare_exchange', 'compare_exchange_weak') or s.op.startswith('fetch_'):
             if rw:
                 out.append(('cell-rmw-rwlock', 0, 'AcqRel', 'publication of the new pointee / reception of the old one; the lock orders readers and writers'))
+                if s.op.startswith('compare_exchange') and _failure_value_used(b, s):
+                    out.append(('cell-rmw-rwlock-fail', 1, 'Acquire', 'the pointer found by a FAILED exchange is turned into an owned value and handed back (from_ptr / inc): it was published by a '
+                                'swap / store that does not take the lock first, so only an Acquire on this read orders the writer\'s initialisation of the value before our use of it'))
             else:
                 out.append(('cell-rmw', 0, 'SeqCst', 'store->load (Dekker) against the reader\'s debt publish; Release publishes the new pointee, Acquire receives the old one'))
         elif s.op == 'load':
@@ -159,6 +162,17 @@ def roles(cx, s):
         elif s.op == 'fetch_sub':
             out.append(('writers-leave', 0, 'Release', 'release side of the bracket around the writer\'s visit'))
     return out
+
+
+def _failure_value_used(b, s):
+    """the Err payload of this compare-exchange flows into a RefCnt conversion / count operation or into the return value"""
+    res = s.term['dest']['local']
+    thr = lambda t: [0] if U.callee_name(t) in ('unwrap_or_else', 'unwrap_or', 'unwrap_err', 'err', 'cast', 'cast_const', 'cast_mut', 'into_ok_or_err') else None
+    for bb, t in b.calls(include_cleanup=False):
+        if (t['callee'].get('trait') or '').endswith('ref_cnt::RefCnt') and U.callee_name(t) in ('from_ptr', 'inc', 'dec') and t['args']:
+            if ('call', s.bb) in b.origins(t['args'][0], through_calls=thr, fields=True):
+                return True
+    return False
 
 
 def _result_dereferenced(b, s):
